@@ -120,18 +120,77 @@ def parse_diag(err):
     return None
 
 
+_HELPERS = {"xmalloc", "xreallocarray", "reallocarray", "arrayadd", "arrayaddptr", "arrayaddbuf", "mkinst", "funcinst", "mkintconst", "mkblock",
+            "functemp", "bufadd", "nextchar"}
+_GDBFRAME = re.compile(r"^#\d+\s+(?:0x[0-9a-f]+ in )?(\w+) \(", re.M)
+_FUNCFILE = {}
+
+
+def _func_file(fn):
+    """Source file of /repo that defines function `fn` (definitions start in column 0: `name(`), or None."""
+    if not _FUNCFILE:
+        import glob
+        for f in sorted(glob.glob(os.path.join(build.REPO, "*.c"))):
+            try:
+                text = open(f, encoding="utf-8", errors="replace").read()
+            except OSError:
+                continue
+            for m in re.finditer(r"^(\w+)\(", text, re.M):
+                _FUNCFILE.setdefault(m.group(1), os.path.basename(f))
+    return _FUNCFILE.get(fn)
+
+
+def _gdb_site(ctx, src, target, extra):
+    """Sample the running plain build with gdb a few times; the loop's owner is the innermost frame of a function of
+    /repo that is not an allocation/emission helper, in most samples."""
+    import collections
+    import tempfile
+    import time
+    exe = ctx.builds["plain"]
+    votes = collections.Counter()
+    with tempfile.TemporaryFile() as inp:
+        inp.write(src)
+        inp.seek(0)
+        try:
+            p = subprocess.Popen([exe, "-t", target] + list(extra), stdin=inp, stdout=subprocess.DEVNULL, stderr=subprocess.DEVNULL,
+                                 env=dict(BASE_ENV), start_new_session=True, preexec_fn=limits(as_mb=4096))
+        except OSError:
+            return None
+        try:
+            time.sleep(1.0)
+            for _ in range(3):
+                if p.poll() is not None:
+                    break
+                g = run(["gdb", "-p", str(p.pid), "-batch", "-nx", "-ex", "bt 40"], timeout=30, env={"PATH": "/usr/bin:/bin", "LC_ALL": "C", "HOME": "/tmp"})
+                for m in _GDBFRAME.finditer((g.out or b"").decode("utf-8", "replace")):
+                    fn = m.group(1)
+                    fl = _func_file(fn)
+                    if fl and fn not in _HELPERS and fn != "main":
+                        votes["%s@%s" % (fn, fl)] += 1
+                        break
+                time.sleep(0.4)
+        finally:
+            try:
+                os.killpg(p.pid, signal.SIGKILL)
+            except OSError:
+                pass
+            p.wait()
+    return votes.most_common(1)[0][0] if votes else None
+
+
 def hang_site(ctx, src, target, extra, seconds=3):
-    """Where is the asan build spinning?  Abort it after `seconds` and read ASan's stack."""
+    """Where is the compiler spinning?  gdb samples of the plain build; if that yields nothing, abort the asan build after
+    `seconds` and read ASan's stack (which can deadlock when the signal lands inside the allocator)."""
+    site = _gdb_site(ctx, src, target, extra)
+    if site:
+        return site
     exe = ctx.builds["asan"]
     e = dict(BASE_ENV)
     e["ASAN_OPTIONS"] = e["ASAN_OPTIONS"].replace("handle_abort=0", "handle_abort=1")
     p = run(["timeout", "-s", "ABRT", str(seconds), exe, "-t", target] + list(extra), input=src, timeout=seconds + 20, env=e,
             stdout=subprocess.DEVNULL)
-    # the innermost frames are allocation/emission helpers that any busy loop passes through: name the loop's owner
-    helpers = {"xmalloc", "xreallocarray", "reallocarray", "arrayadd", "arrayaddptr", "arrayaddbuf", "mkinst", "funcinst", "mkintconst", "mkblock",
-               "functemp", "bufadd", "nextchar"}
     for m in _FRAME.finditer(p.err or b""):
         fn, fl = m.group(1).decode(), m.group(2).decode()
-        if os.path.exists(os.path.join(build.REPO, fl)) and fn not in helpers:
+        if os.path.exists(os.path.join(build.REPO, fl)) and fn not in _HELPERS:
             return "%s@%s" % (fn, fl)
     return _first_repo_frame(p.err or b"") or "?"
